@@ -39,25 +39,70 @@ THEOREMS = [
     (M, "C06.plural_vars_sets", "the variable verdict depends on the two sets of #n variables only"),
     (M, "C06.plural_vars_rendered", "a plural value assembled from text (without #) and #n tokens (not followed by a digit) has exactly the variables n, any number of tokens"),
     (M, "C06.plural_rendered_verdict", "check() on assembled plural values: variable verdict = varsVerdict of the #n tokens of reference and localized value"),
+    # ---- round 4
+    (M, "C06.atoks_iff_lex", "for EVERY value: printf.finditer(v) finds the tokens ts <=> the independent inductive grammar of printf text (non-% characters, `%%`, `%[n$][width][.prec]c`, lone % only where no token starts) tokenises v as ts — soundness and completeness of the lexer"),
+    (M, "C06.lex_exists_unique", "every value has exactly one tokenisation by the grammar"),
+    (M, "C06.specs_of_lex", "getPrintfSpecs v = closed form on the grammar's tokens of v, for every value (specs_of_rendered without the WfRender hypothesis)"),
+    (M, "C06.specs_error_iff_lex", "getPrintfSpecs raises <=> the value's tokenisation has a lone %, mixes the styles or leaves a gap; only PrintfException"),
+    (M, "C06.rendered_lex", "the assembled values of round 3 are an instance: a WfRender token list is a tokenisation by the grammar"),
+    (M, "C06.specs_lex_ignore_text_pct", "all values: the same sequence of lone-% / argument tokens (text and %% dropped) gives the same specifier list or the same kind of error"),
+    (M, "C06.specs_lex_reorder", "all values: permuting %% and consistent ordered arguments (any text in between) does not change getPrintfSpecs"),
+    (M, "C06.unescape_total", "PropertiesEntity.val as the checker reads it never raises and is the documented unescaping of the raw value (C02 specification)"),
+    (M, "C06.check_printf_raw", "check_printf stated from the RAW values of the two entities (no unescape hypothesis)"),
+    (M, "C06.check_no_reference_args_raw", "raw reference without well-formed arguments => encoding + escape warnings only"),
+    (M, "C06.plural_verdict_raw", "plural_verdict stated from the raw values"),
+    (M, "C06.check_trichotomy", "check() never raises and is exactly one of: plural verdict / encoding+escape warnings only / encoding+escape warnings + checkPrintf verdict, decided by the raw reference"),
+    (M, "C06.check_never_raises", "PropertiesChecker.check never raises, for any pair of entities and any locale"),
+    (M, "C06.check_verdict_iff", "ONE decision theorem for specifier lists of any lengths: severities = [error]? + [warning]? as a function of the difflib opcodes (error <=> replace/insert/non-trailing delete, warning <=> delete ending at len(refSpecs)), all at offset 0; closed forms: error <=> L not a prefix of R, equal -> nothing, L proper prefix of R -> exactly one warning, R proper prefix of L -> exactly one `obsolete` error"),
+    (M, "C06.printf_verdict_value", "checkPrintf(R, value) = the malformed-value error at its offset, or the verdict of the two specifier lists"),
+    (M, "C06.verdict_extension_is_error", "a localization whose arguments extend the reference's is an error without warning (excludes the zip-based fast path)"),
+    (M, "C06.verdict_trailing_is_warning", "dropping only trailing reference arguments is a warning and no error"),
+    (M, "C06.verdict_reorder_silent", "all values: a localized value whose tokens are a permutation of the reference's (%% and consistent ordered arguments) is silent"),
+    (M, "C06.verdict_all_retyped", "reference and localization without a common specifier (any lengths): opcodes = one replace; exactly one error with one `should be` message per position of the shorter list, no warning"),
+    (M, "C06.plural_gate_closed", "plural branch <=> comment contains Localization_and_Plurals, key != pluralRule, and the value is NOT (one or more Unicode decimal digits + optional single final newline): re.match(r'\\d+$') evaluated exactly for every value"),
+    (M, "C06.check_verdict_raw", "check() on the printf branch from raw values = encoding + escape warnings + verdict of the two specifier lists; error <=> L not a prefix of R"),
+    (M, "C06.plural_rule_lookup", "get_plural_rule = the generic lookup (own key, else language subtag) on the regenerated table"),
+    (M, "C06.plural_table_wf", "the shipped plural tables are well formed: distinct keys, indices in range, every rule has a category (kernel evaluation of the regenerated data)"),
+    (M, "C06.plural_rule_iff", "for EVERY locale string: rule i <=> the tag is a key with value i, or it is no key and its language subtag is a key with value i"),
+    (M, "C06.plural_rule_iff_generic", "the same prefix lookup law over any table with distinct keys"),
+    (M, "C06.plural_rule_region", "any table: lang-REST that is not a key has the rule of lang"),
+    (M, "C06.plural_hyphen_keys", "keys containing `-` decide for the identical tag only (any table); the shipped table has exactly zh-CN and zh-TW"),
+    (M, "C06.plural_lookup_wf", "over any well-formed table get_plural never raises, is None exactly without a rule, and a rule has >= 1 form"),
+    (M, "C06.plural_vars_exact", "for EVERY text both re.finditer('#([0-9]+)') calls of check_plural find exactly the variables of the grammar LexP (longest digit run after #)"),
+    (M, "C06.plural_vars_exist_unique", "every text has exactly one variable list"),
+    (M, "C06.plural_vars_per_form", "the variables of ';'.join(forms) are the concatenation of the forms' variables"),
+    (M, "C06.plural_verdict_fn", "plural string, from raw values: check() = encoding warnings + forms verdict as a function of (form count of the locale's rule, number of ;) + variable verdict of the two #n variable lists"),
+    (M, "C06.printf_pos_in_value", "every plain offset reported by PropertiesChecker.check is <= len(raw localized value); every EntityPos < len(all) — the hypothesis of C17.check_pos_in_range_value for this checker"),
+    (M, "C06.printf_pos_points_at_pct", "every checkPrintf finding is at offset 0 or at an offset n < len(value) with value[n] = '%'"),
+    (M, "C06.printf_exception_pos", "PrintfException offset: a % of the value for lone % / mixed, 0 for the gap"),
+    (M, "C06.escape_and_encoding_pos", "escape warnings point at a backslash of the raw value, encoding warnings at a U+FFFD of all"),
+    (M, "C06.session_history_independent", "one checker instance over a sequence of pairs = check of each pair alone (concatenation, reversal)"),
 ]
 PARTIAL = [
-    "atoks_render / specs_of_rendered (a value ASSEMBLED from tokens lexes back to them) hold for token lists of any length under the "
-    "explicit hypothesis WfRender: text tokens contain no %, ordered numbers are >= 1 and written without leading zero, and what follows "
-    "a lone % is the end of the value or a character that is not %, digit, *, . or a conversion character (sufficient, not necessary: "
-    "e.g. `%1 x` also lexes as a lone %); negation witnesses for each excluded shape are in Props/C06.lean and the excluded shapes are "
-    "probed on the real code by the exhaustive getPrintfSpecs correspondence over the characters `%120$.*dSa`",
-    "plural_vars_rendered requires text tokens without # (a # not followed by a digit would be harmless but is not covered)",
-    "check_printf / plural_verdict take the unescaped values (PropertiesEntity.val) as hypotheses `unescape raw = some value`; "
-    "totality of the unescape model is covered by the `punescape` correspondence only",
+    "the WARNING side of check_verdict_iff is exact in terms of the ported difflib opcodes (a delete ending at len(refSpecs)) and in "
+    "closed form for the cases the property names (equal, L proper prefix of R, R proper prefix of L); for two lists neither of which is "
+    "a prefix of the other the presence of an accompanying trailing-delete warning depends on difflib's longest-match heuristic and has "
+    "no closed form here (the error is certain: check_verdict_iff, `hasError fs <-> not L <+: R`)",
+    "the round-3 theorems atoks_render / specs_of_rendered (WfRender) and plural_vars_rendered (WfRenderP) are kept; they are now "
+    "instances of the hypothesis-free atoks_iff_lex / plural_vars_exact (rendered_lex)",
+    "session_history_independent is a statement about the model (check is a function); that the real PropertiesChecker has no "
+    "per-instance state that influences check is established by the session stream of the harness, not by proof",
 ]
 TRUSTED = [
+    "round 4 ops c06.toks / c06.rule / c06.pvars / c06.verdict tie the objects of the new theorems (token list, rule lookup, variable "
+    "lists, verdict on specifier lists) to the real code; an independent, priority-free enumerator of the token grammar is compared "
+    "with the real regex on every generated value",
     "hand-written models CLModel/Checks/Properties.lean (PropertiesChecker.check/check_plural/checkPrintf/getPrintfSpecs, "
     "Checker.check, plurals.get_plural, PropertiesEntity.val) and CLModel/Checks/Difflib.lean (port of CPython difflib "
     "SequenceMatcher.get_opcodes), tied by the `pcheck`/`pspecs`/`popcodes`/`pplural`/`punescape` correspondence",
     "regexes (printf, escape, #n, \\d+$) and the plural tables are regenerated from /repo on every run",
 ]
 ASSUMPTIONS = ["values are what the real PropertiesParser produces for `key=value` lines (entities built by the real parser)"]
-LEVEL_TEXT = ("Lean 4 theorems over an executable transliteration of PropertiesChecker.check: for ALL reference specifier lists and ALL "
+LEVEL_TEXT = ("(round 4: the lexer of getPrintfSpecs is EXACTLY an independent inductive grammar of printf text for every value; all "
+              "theorems are stated from the RAW values; one decision theorem check_verdict_iff gives the verdict matrix in terms of the "
+              "ported difflib opcodes and in closed form; locale -> rule lookup law for every locale string over any well-formed table; "
+              "#n variables of every text; offsets of the findings) "
+              "Lean 4 theorems over an executable transliteration of PropertiesChecker.check: for ALL reference specifier lists and ALL "
               "localized values the printf verdict is an error iff the localized value is malformed (lone %, mixed, gap) or its positional "
               "argument types are not a prefix of the reference's, a dropped tail is exactly one warning, equality is silent, %% and "
               "reordering of ordered arguments do not change the argument list; the difflib opcode computation is a verified port "
@@ -531,6 +576,10 @@ def run(ctx):
             out.samples += r["samples"][:1]
     out.merge(direct_ops(ctx))
     out.merge(rendered_ops(ctx))
+    out.merge(round4_ops(ctx))
+    # a history-dependent verdict shows in every stream that shares a checker instance, but only the session stream
+    # stores an input that reproduces it (the whole sequence): keep those in front of the stored violations
+    out.violations.sort(key=lambda v: 0 if v.get("input", {}).get("kind") == "history" else 1)
     return out
 
 
@@ -640,6 +689,215 @@ def direct_ops(ctx):
     return out
 
 
+# ------------------------------------------------------------------ round 4
+HIST_VALUES = ["%S", "%1$S %2$d", "%2$d %1$S", "%d %S", "%S %", "%1$S %3$S", "plain", "\\q %S", "a�b %S", "%S %S %S",
+               "%1$S %%", "%%%1$S", "", "%S %d"]
+HIST_PLURAL = ["#1 file;#1 files", "#1;#2", "#1", "a;b;c", "", "#2;#1;#1;#1", "7"]
+LOCALE_PARTS = ["", "-", "x", "GB", "Latn", "CN", "TW", "zh", "en", "sr", "pt", "BR", "cy", "ar", "hsb", "xx", "EN", "Zh",
+                "_", "- ", "é"]
+
+
+def gen_locale(rng, keys):
+    r = rng.random()
+    if r < 0.25:
+        return rng.choice(keys)
+    if r < 0.5:
+        return rng.choice(keys) + "-" + rng.choice(LOCALE_PARTS)
+    if r < 0.6:
+        return rng.choice(keys) + rng.choice(["_", " ", "--", "-x-y", "-CN-x", "x"]) + rng.choice(LOCALE_PARTS)
+    if r < 0.7:
+        k = rng.choice(keys)
+        return k[:rng.randrange(0, len(k) + 1)]
+    if r < 0.8:
+        return rng.choice(keys).upper() if rng.random() < 0.5 else rng.choice(keys).title()
+    return "-".join(rng.choice(LOCALE_PARTS) for _ in range(rng.randrange(1, 4)))
+
+
+def round4_ops(ctx):
+    """ties for the round-4 theorems: tokens of every value against the token grammar (C06.atoks_iff_lex), the locale
+    lookup law (C06.plural_rule_iff), the #n variables of every text (C06.plural_vars_exact), the verdict matrix on
+    specifier lists (C06.check_verdict_iff), one checker instance over sequences (C06.session_history_independent)"""
+    from compare_locales import plurals
+    from impl import propcheck as P
+    out = Outcome()
+    rng = ctx.rng("c06", "round4")
+    # ---- tokens: all short strings over the characters the regex looks at + random longer ones + assembled values
+    chars = ["%", "1", "2", "0", "$", ".", "*", "d", "S", "a"]
+    Lmax = 4 if ctx.tier == "quick" else 5
+    vals = ["".join(t) for n in range(Lmax + 1) for t in itertools.product(chars, repeat=n)]
+    for _ in range(ctx.n(15000, 150000)):
+        vals.append("".join(rng.choice(chars + ["3", "9", "x", "%", "%", "$", " ", "é", "٣", "#", "10", "%%", "%1$", "*.*"])
+                            for _ in range(rng.randrange(5, 16))))
+    for _ in range(ctx.n(4000, 50000)):
+        vals.append("".join(rng.choice(BIG_ALPHA) for _ in range(rng.randrange(1, 9))))
+    lines = ["c06.toks " + C.enc(v) for v in vals]
+    model = C.run_driver_parallel(lines) if ctx.model_ok else [None] * len(lines)
+    for v, mo in zip(vals, model):
+        got = P.impl_toks(v)
+        gr = P.grammar_tokens(v)
+        out.evaluations += 1
+        if got != gr:
+            # the regex of the code and the token grammar of the theorem disagree: the argument model of the property
+            # (scan_printf) is this grammar, so this is a wrong tokenisation of a concrete value
+            sp = P.impl_specs(v)
+            exp = P.scan_printf(v)
+            if sp.startswith("raise") or (exp[0] == "bad") != sp.startswith("err") or (
+                    exp[0] == "ok" and sp != "ok " + " ".join(C.enc(t) for t in exp[1])):
+                out.violations.append({"what": "printf.finditer finds %r, the token grammar says %r; getPrintfSpecs %r "
+                                               "differs from the positional-argument model %r" % (got, gr, sp, exp),
+                                       "input": {"kind": "specs", "value": v}})
+            else:
+                out.disagreements.append({"op": "c06.toks-grammar", "value": v, "impl": got, "grammar": gr})
+        elif mo is not None and mo != got:
+            out.disagreements.append({"op": "c06.toks", "value": v, "impl": got, "model": mo})
+        k = got.count(":lone"), got.count(":pct"), min(got.count(":arg:"), 3)
+        out.count("toks.lone%d.pct%d.arg%d" % (min(k[0], 1), min(k[1], 1), k[2]))
+        if got != "ok":
+            out.nontrivial.add(("toks", got if len(got) < 50 else P.h(got)))
+    # ---- locale -> rule: every key, every key with suffixes, random tags
+    keys = sorted(plurals.CATEGORIES_BY_LOCALE)
+    locs = [None] + keys + ODD_LOCALES + [k + "-XX" for k in keys] + [k + "-" for k in keys] + [k.split("-")[0] for k in keys]
+    for _ in range(ctx.n(6000, 60000)):
+        locs.append(gen_locale(rng, keys))
+    lines = ["c06.rule " + P.opt(l) for l in locs]
+    model = C.run_driver_parallel(lines) if ctx.model_ok else [None] * len(lines)
+    for l, mo in zip(locs, model):
+        got = P.impl_rule(l)
+        law = P.rule_law(l)
+        out.evaluations += 1
+        exp_n = P.pinned_forms(l)
+        want = "None None" if law is None else "%d %d" % (law, len(plurals.CATEGORIES_BY_INDEX[law]))
+        if got in ("raise", "inconsistent") or got != want or (None if got == "None None" else int(got.split()[1])) != exp_n:
+            out.violations.append({"what": "get_plural_rule/get_plural(%r) = %r; the lookup law (own key, else language subtag) "
+                                           "gives %r, the pinned form count %r" % (l, got, want, exp_n),
+                                   "input": {"kind": "locale", "locale": l}})
+        elif mo is not None and mo != got:
+            out.disagreements.append({"op": "c06.rule", "locale": l, "impl": got, "model": mo})
+        out.count("rule." + ("none" if got == "None None" else ("own" if l in plurals.CATEGORIES_BY_LOCALE else "lang")))
+        if got != "None None":
+            out.nontrivial.add(("rule", got, l in plurals.CATEGORIES_BY_LOCALE))
+    # ---- #n variables of every text
+    pchars = ["#", "1", "2", "0", ";", "a", " "]
+    pv = ["".join(t) for n in range(5 if ctx.tier == "quick" else 7) for t in itertools.product(pchars, repeat=n)]
+    for _ in range(ctx.n(6000, 60000)):
+        pv.append("".join(rng.choice(PLURAL_ALPHA + ["##", "#٣", "12", "#12", "%S", "é"]) for _ in range(rng.randrange(1, 9))))
+    lines = ["c06.pvars " + C.enc(v) for v in pv]
+    model = C.run_driver_parallel(lines) if ctx.model_ok else [None] * len(lines)
+    for v, mo in zip(pv, model):
+        got = P.impl_pvars(v)
+        want = " ".join(["ok"] + [str(x) for x in P.scan_vars_list(v)])
+        out.evaluations += 1
+        if got != want:
+            # the property's verdict is a function of these sets: a different variable list on a concrete text
+            if got in ("raise", "differ") or set(got.split()[1:]) != set(want.split()[1:]):
+                out.violations.append({"what": "check_plural reads the variables %r from %r, the #n grammar says %r" % (got, v, want),
+                                       "input": {"kind": "pvars", "value": v}})
+            else:
+                out.disagreements.append({"op": "c06.pvars-grammar", "value": v, "impl": got, "grammar": want})
+        elif mo is not None and mo != got:
+            out.disagreements.append({"op": "c06.pvars", "value": v, "impl": got, "model": mo})
+        out.count("pvars.%d" % min(len(got.split()) - 1, 3))
+        if got != "ok":
+            out.nontrivial.add(("pvars", got if len(got) < 40 else P.h(got)))
+    # ---- verdict matrix on specifier lists: all pairs of lists up to length 4 (5) over {S, d}, length 3 over {S, d, x}
+    ab = "Sd"
+    Ls = ["".join(t) for n in range(0, 5 if ctx.tier == "quick" else 6) for t in itertools.product(ab, repeat=n)]
+    L3 = ["".join(t) for n in range(0, 4) for t in itertools.product("Sdx", repeat=n)]
+    pairs = [(r, l) for r in Ls for l in Ls] + [(r, l) for r in L3 for l in L3]
+    for _ in range(ctx.n(4000, 40000)):
+        r = "".join(rng.choice("Sdxf") for _ in range(rng.randrange(0, 12)))
+        m = rng.randrange(5)
+        if m == 0:
+            l = r + "".join(rng.choice("Sdxf") for _ in range(rng.randrange(1, 5)))       # extends the reference
+        elif m == 1:
+            l = r[:rng.randrange(0, len(r) + 1)]                                            # drops a tail
+        elif m == 2:
+            l = r[1:] if r else "S"
+        elif m == 3:
+            l = "".join(rng.choice("Sdxf") for _ in range(rng.randrange(0, 12)))
+        else:
+            k = rng.randrange(0, len(r) + 1)
+            l = r[:k] + rng.choice("Sdxf") + r[k:]
+        pairs.append((r, l))
+    for _ in range(ctx.n(30, 300)):                                                        # autojunk range, both directions
+        n = rng.randrange(195, 320)
+        r = "".join(rng.choice(rng.choice(["S", "Sd", "SSSSSSSSSd"])) for _ in range(n))
+        l = r + "".join(rng.choice("Sd") for _ in range(rng.randrange(1, 40))) if rng.random() < 0.6 else r[:rng.randrange(0, n)]
+        pairs.append((r, l))
+
+    def l10n_value(l, i):
+        # unordered arguments, or (every other case) ordered ones written in reverse
+        if i % 2 == 0 or not l:
+            return " ".join("%" + c for c in l)
+        return "".join("%%%d$%s" % (j + 1, c) for j, c in reversed(list(enumerate(l))))
+
+    cases = [(r, l, l10n_value(l, i)) for i, (r, l) in enumerate(pairs)]
+    lines = ["c06.verdict %s %s" % (C.enc(r), C.enc(v)) for r, l, v in cases]
+    model = C.run_driver_parallel(lines) if ctx.model_ok else [None] * len(lines)
+    for (r, l, v), mo in zip(cases, model):
+        got = P.impl_verdict(list(r), v)
+        out.evaluations += 1
+        res = [] if got.startswith("raise") else [f.split(" ", 3) for f in got.split(" | ")[1:]]
+        sevs = [x[0] for x in res]
+        if l == r:
+            want = []
+        elif r.startswith(l):
+            want = ["warning"]
+        elif l.startswith(r):
+            want = ["error"]          # the localization EXTENDS the reference's arguments
+        else:
+            want = None               # not a prefix: an error (a trailing-delete warning may accompany it)
+        bad = None
+        if got.startswith("raise"):
+            bad = "checkPrintf raised: " + got
+        elif want is not None and sevs != want:
+            bad = "specifier lists %r / %r: severities %r, the prefix model says %r" % (r, l, sevs, want)
+        elif want is None and "error" not in sevs:
+            bad = "specifier lists %r / %r (not a prefix): no error reported, got %r" % (r, l, sevs)
+        if bad and r:
+            out.violations.append({"what": bad, "input": {"kind": "verdict", "ref": r, "value": v}, "impl": got})
+        elif mo is not None and mo != got:
+            out.disagreements.append({"op": "c06.verdict", "ref": r, "value": v, "impl": got, "model": mo})
+        out.count("verdict." + ("equal" if l == r else "trailing" if r.startswith(l) else "extends" if l.startswith(r) else "other")
+                  + ("+warn" if want is None and "warning" in sevs else ""))
+        if sevs:
+            out.nontrivial.add(("verdict", P.h(got)))
+    # ---- sessions of one checker instance
+    seqs = []
+    some_locales = [None, "en", "ar", "ru", "zh-CN", "cy", "xx", "en-GB"]
+    extras = [None, [], ["android-dtd"], ["foo"], ["android-dtd", "x"]]
+    for _ in range(ctx.n(1500, 20000)):
+        prs = []
+        for _ in range(rng.randrange(2, 7)):
+            k = rng.random()
+            if k < 0.45:
+                rv, lv, _e, _m = gen_derived(rng)
+                prs.append([[None, "k", rv], [None, "k", lv]])
+            elif k < 0.7:
+                prs.append([[rng.choice([None, "# c"]), "k", rng.choice(HIST_VALUES)], [None, "k", rng.choice(HIST_VALUES)]])
+            else:
+                key = rng.choice(["k", "k", "pluralRule"])
+                prs.append([[PLURAL_COMMENT, key, rng.choice(HIST_PLURAL)], [None, key, rng.choice(HIST_PLURAL)]])
+        if rng.random() < 0.3:
+            prs.append(list(prs[0]))       # the same pair twice in one session
+        seqs.append({"locale": rng.choice(some_locales), "extra": rng.choice(extras), "pairs": prs})
+    jobs = [{"seqs": seqs[i:i + 120], "model": bool(ctx.model_ok)} for i in range(0, len(seqs), 120)]
+    res = pool.pmap("impl.propcheck", "run_history", [[j] for j in jobs], timeout=300.0, batch=1)
+    for r in res:
+        if "r" not in r:
+            raise RuntimeError("worker failed: %r" % (r,))
+        r = r["r"]
+        out.evaluations += r["n"]
+        for k, v in r["dist"].items():
+            out.count(k, v)
+        out.nontrivial |= {("hist", x) for x in r["nontrivial"]}
+        for v in r["viol"]:
+            v["finding"] = finding_of(v)
+            out.violations.append(v)
+        out.disagreements += r["dis"]
+    return out
+
+
 def classify(v):
     return v.get("finding")
 
@@ -656,6 +914,30 @@ def replay(payload):
             got = P.impl_plural(i["locale"])
             got_n = None if got in ("None", "raise") else len(got.split())
             res.append({"input": i, "violations": [got] if (got in ("raise", "") or got_n != P.pinned_forms(i["locale"])) else []})
+        elif i.get("kind") == "history":
+            r = pool.pmap("impl.propcheck", "replay_history", [[i]], timeout=60.0)[0]
+            res.append(r.get("r", r))
+        elif i.get("kind") == "pvars":
+            got = P.impl_pvars(i["value"])
+            want = " ".join(["ok"] + [str(x) for x in P.scan_vars_list(i["value"])])
+            res.append({"input": i, "violations": [got] if (got in ("raise", "differ") or set(got.split()[1:]) != set(want.split()[1:])) else []})
+        elif i.get("kind") == "verdict":
+            got = P.impl_verdict(list(i["ref"]), i["value"])
+            sc = P.scan_printf(i["value"])
+            sevs = [] if got.startswith("raise") else [f.split(" ", 3)[0] for f in got.split(" | ")[1:]]
+            l = "".join(sc[1]) if sc[0] == "ok" else None
+            r = i["ref"]
+            if got.startswith("raise") or l is None:
+                bad = got.startswith("raise")
+            elif l == r:
+                bad = sevs != []
+            elif r.startswith(l):
+                bad = sevs != ["warning"]
+            elif l.startswith(r):
+                bad = sevs != ["error"]
+            else:
+                bad = "error" not in sevs
+            res.append({"input": i, "violations": [got] if bad else []})
         elif i.get("kind") == "specs":
             got = P.impl_specs(i["value"])
             exp = P.scan_printf(i["value"])
